@@ -20,8 +20,8 @@ from ..runner import ROOT, Infra
 THEOREMS = [
     "formats_valid", "mpf2float_normal", "mpf2float_ge_min_normal", "overflow", "overflow_iff", "tiny", "zero_iff", "two_step",
     "representable_exact", "loop_dead", "flush_eq", "flush_partial", "flush_threshold", "flush_edge_witness", "normal_flush_witness",
-    "subnormal_double_rounding_witness", "subnormal_sliver_witness", "plumbing_actual", "plumbing_partial", "plumbing_neg_unspecified",
-    "plumbing_neg_true", "identity_flush_neg_witness", "work_prec", "specials", "tables", "roundV_canonical", "roundV_nearest",
+    "subnormal_double_rounding_witness", "subnormal_sliver_witness", "plumbing", "plumbing_unspecified", "plumbing_regression",
+    "identity_flush_regression", "work_prec", "specials", "tables", "roundV_canonical", "roundV_nearest",
     "roundV_tie_even", "roundV_inf_iff", "decode_pack", "identity",
 ]
 SEARCHED = [
@@ -872,6 +872,13 @@ def run(ctx):
     _ = broken
 
 
+def _also_init(ctx, sig, replay):
+    """A flag-plumbing failure on a real call is also the failing input of a broken `init` correspondence."""
+    it = getattr(ctx, "_c15_items", {}).get("correspondence:Mpf.init")
+    if it is not None and not it["has_failing_input"]:
+        ctx.violation(sig, "flag plumbing", replay, broken_item=it)
+
+
 def check_call_clause(ctx, fm, m, im, item):
     """The backend clause of the property on the real call result."""
     want, cls, demand = expected_call(fm, m["kw"], m["fn"], m["args"])
@@ -914,10 +921,12 @@ def check_call_clause(ctx, fm, m, im, item):
             and (demand == "exact" or abs(exact) >= fm.min_sub):
         ctx.violation(SIG_UNSPEC, f"{fm.name}: {m['fn']} through vectorize_with_mpmath with flush_subnormals unspecified maps a subnormal result to zero: {replay}",
                       replay, broken_item=item)
+        _also_init(ctx, SIG_UNSPEC, replay)
         return
     if kw != "A" and kw != "U" and cls == "flushed" and got_bits is not None and not zero_got and sign_ok:
         ctx.violation(SIG_TRUE, f"{fm.name}: {m['fn']} through vectorize_with_mpmath(flush_subnormals={kw}) does not flush a subnormal result: {replay}",
                       replay, broken_item=item)
+        _also_init(ctx, SIG_TRUE, replay)
         return
     if demand == "neighbour" and got_bits is not None and sign_ok:
         gm = got_bits & (fm.signbit - 1)
@@ -972,8 +981,9 @@ LEVEL_TEXT = ("Proof. Theorems (Lean kernel; every format with 2<=p<=53, p<=2^(e
               "result is the two-step rounding RNE_fmt(RNE_p(x)) (two_step), which in the subnormal range may differ from RNE_fmt(x) "
               "(witnesses; permitted by the property); the `while man > largest` and inf-retry loops are dead for the default precision "
               "(loop_dead).  The reference rounding is itself proved to be a nearest representable value with ties to even "
-              "(roundV_nearest, roundV_tie_even).  Flag plumbing: the stored flag is proved NOT to equal the requested one "
-              "(plumbing_neg_*: unspecified flushes, True does not) — known finding; plumbing_partial / plumbing_actual state what holds.  "
+              "(roundV_nearest, roundV_tie_even).  Flag plumbing (full strength since fix 724e786): for every keyword value and module default "
+              "the flush setting mpf2float acts on equals the requested one, False when unspecified (plumbing, plumbing_unspecified); the "
+              "pre-fix behaviour is kept as regression witnesses (plumbing_regression, identity_flush_regression).  "
               "Model tied to the real code by correspondence on directed (sign, man, exp, prec) tuples (ties, overflow edge, smallest normal, "
               "every subnormal binade, precisions p..p+200, explicit prec=/rounding=), on mpmath's _normalize, numpy's dtype(int) and ldexp, "
               "the class tables, the stored flag, the working precision, and whole backend calls.")
